@@ -231,3 +231,10 @@ def check(cx):
     cx.include(c09, {"C09.4"}, "C03.11", "shared with C09.4: the persisted aborted set is written and read back with one bit layout; an id that is "
                "marked but not loaded on open turns a rolled-back transaction into a committed one after a clean restart", floor=4,
                skip=("drops-large-ids",))
+
+    # ---- C03.12 / C03.13 (constructs shared with C02.1b and C06.3) ----------------------------------------------------------
+    from . import c02, c06
+    cx.include(c02, {"C02.1b"}, "C03.12", "shared with C02.1b: ROLLBACK and the drop of a session reach an Abort and never a Commit, whatever the "
+               "statements of the transaction returned (a statement that failed half-way has already written rows)", floor=4)
+    cx.include(c06, {"C06.3"}, "C03.13", "shared with C06.3: the index entry a DELETE stamps keeps its original creator; stamping a rebuilt tuple makes "
+               "the entry belong to the deleter, so a rolled-back DELETE leaves the row out of its index", floor=6, skip=("update-arm:new-key-entry",))
